@@ -546,7 +546,7 @@ func buildCases(r *vk.Run) []Case {
 	r.Set("outcome_sequences_enumerated", len(seqs))
 	var cases []Case
 	starts := []uint64{0, 1, 17}
-	reps := r.N(1, 6)
+	reps := r.N(3, 6)
 	var all [][]string
 	for k := 0; k < reps; k++ {
 		all = append(all, seqs...)
